@@ -1,7 +1,7 @@
 /-
 C16 — Gell-Mann coordinates are an orthogonal-basis isomorphism.
 
-Property theorems only (helper lemmas: `NumqiProofs/Gellmann{Lemmas,Synthesis,Iso}.lean`).
+Property theorems only (helper lemmas: `NumqiProofs/Gellmann{Lemmas,Synthesis,Iso,Complex}.lean`).
 Everything is about the constants of `NumqiModel/Gellmann.lean` that `Driver/C16.lean` executes:
 `gm`/`allGellmann` (`gellmann_matrix`, `all_gellmann_matrix`), `analysis` (`matrix_to_gellmann_basis`),
 `synthesis` (`gellmann_basis_to_matrix`), `dmToVec`, `vecToDm`, `dmNorm2`, `distance2`.
